@@ -384,7 +384,11 @@ func histConfig(g *pkgGen, i int) *genOut {
 	}
 	// lists of different settings that name the same package (a packager may reconcile them - on its own copy)
 	if i%3 != 2 {
-		c.Depends = append(c.Depends, "shared-dep", "zz-last")
+		// (names with capitals, blanks around the operator, a tab: what a packager may want to tidy up for its own format)
+		c.Depends = append(c.Depends, "shared-dep", "NetworkManager", "Foo-Tool  >=\t1.0", "zz-last")
+		c.Provides = append(c.Provides, "Virtual-Thing = 2")
+		c.Conflicts = append(c.Conflicts, "OldName (<< 3)")
+		c.Replaces = append(c.Replaces, "OldName")
 		c.IPK.Predepends = append(c.IPK.Predepends, "shared-dep")
 		c.Deb.Predepends = append(c.Deb.Predepends, "shared-dep")
 		c.Recommends = append(c.Recommends, "shared-dep")
